@@ -68,3 +68,20 @@ theorem entry_valid_colour (E : PEnv) (O : Leaf α) (d : Descend α) (mode : Int
   simp [h, hm]
 
 end CmProps.C12
+
+namespace CmProps.C12
+open Cm Cm.Parse
+variable {α : Type} [NumT α]
+
+/-- the status of a valid entry whose returned colour re-reads as `c` is the readability label of
+    `c` against the entry's own background at the entry's text size (lower-cased) -/
+theorem entry_valid_status (E : PEnv) (O : Leaf α) (d : Descend α) (mode : Int) (very : Bool) (it : BulkItem α)
+    (h : (ColorPair.new E it.text it.bg it.large).isValid = true) (s : Str) (ok : Bool) (c b : RGB)
+    (hm : (ColorPair.new E it.text it.bg it.large).makeReadable E O d mode very = some (.text s, ok))
+    (hc : (Color.new (α := α) E (.str s) (some (Color.new E it.bg none))).rgb? = some c)
+    (hb : (Color.new (α := α) E it.bg none).rgb? = some b) :
+    (Bulk.entry E O d mode very it).status = ((wcagLevel (α := α) c b it.large).label).toLower := by
+  unfold Bulk.entry
+  simp [h, hm, hc, hb]
+
+end CmProps.C12
